@@ -768,6 +768,13 @@ impl Runner {
             self.bump("path-oracle:skipped");
             return;
         }
+        // optimality under distance-dependent conditions is C17's business only (a known finding there);
+        // in the other properties' runs a path search with distance conditions is checked for validity only
+        if matches!(verdict, PathVerdict::DistanceDependent(..)) && self.prop.name() != "C17" {
+            self.bump("path-oracle:distance-dependent-not-C17");
+            self.evaluated = true;
+            return;
+        }
         self.evaluated = true;
         if verdict == PathVerdict::Ok {
             return;
